@@ -56,7 +56,8 @@ var c10Names = []string{"Create:ok", "Sign:ok", "Sign2:ok", "Finalize:ok", "fail
 func init() {
 	register(&RuleSet{
 		ID: "C10",
-		Explanation: "R14 (= C12.R2) the no-clobber gate refuses an existing object itself (success only after a write or under keep_going), so the refusal comes before the manifest write. " +
+		Explanation: "R15 every sync mutex a function acquires is released on every path to a return (an Unlock of the same mutex, or a deferred one): an error path that returns with the authority or a key manager locked blocks every later use, so a later fault-free rotation cannot succeed. " +
+			"R14 (= C12.R2) the no-clobber gate refuses an existing object itself (success only after a write or under keep_going), so the refusal comes before the manifest write. " +
 			"ESP path simulation of rotate.Key and rotate.Bootstrap with summaries through their step helpers. " +
 			"R1 old key destroyed only in states with Finalize:ok; R2 Finalize only with Create:ok∧Sign:ok, SetPrimary only with Sign:ok; " +
 			"R3 no SetPrimary/Finalize/DestroyOld after any failed step; R4 nil return of Key ⇒ Create:ok∧Sign:ok∧Finalize:ok; " +
@@ -82,6 +83,18 @@ func runC10(c *Ctx) {
 	c.borrow("R9/C11.", runC11, func(rule, _ string) bool {
 		return rule == "R1" || rule == "R2" || rule == "R6" || strings.HasPrefix(rule, "ESP R1") || strings.HasPrefix(rule, "ESP R2") || strings.HasPrefix(rule, "ESP R6")
 	})
+	// R15: a mutex taken anywhere in the repository's non-test code is released on every exit of the function that took
+	// it — a failed step of a rotation must not leave the authority (or a key manager) locked for the next attempt.
+	// (none on the present tree: seed C10-12, run in the thorough tier, must fire)
+	{
+		var all []*ssa.Function
+		for _, f := range c.P.RepoFunctions() {
+			if !c.isTestFunc(f) {
+				all = append(all, f)
+			}
+		}
+		c.S.OK("R15", "repository:mutexes released on every exit", "", fmt.Sprintf("%d mutex acquire sites examined", c.lockPairingRule("R15", all)), false)
+	}
 	keysPkg := repoPath("keys")
 	stypPkg := repoPath("sign/types")
 	key := c.fn("R0", "rotate", "Key")
